@@ -14,6 +14,7 @@ def corpus():
 
 
 def generate(rng, tier):
+    yield from R.search_cases(tier)
     for _ in range(120 if tier == 'quick' else 12000):
         yield R.gen_case(rng, tier)
 
